@@ -50,7 +50,7 @@ package types
 //@ func ValidateSubDistributors(subDistributors) (err)
 //@   requires allRefsOK(subDistributors, len(subDistributors)) && len(subDistributors) < 1000000000
 //@   ensures [main-last-a-source] err == nil ==> loMainOf(subDistributors, len(subDistributors)) == "SOURCE"
-//@   prop C20 C03 C13
+//@   prop C20 C03 C13 C04 C10
 //@ loop ValidateSubDistributors#1
 //@   invariant 0 <= \i && \i <= len(subDistributors) && len(subDistributors) < 1000000000
 //@   invariant arr(lastOccurrence) != 0 && arr(lastOccurrenceIndex) != 0 && arr(subDistributorNameOccurred) != 0 && arr(shareNameOccurred) != 0
@@ -60,7 +60,7 @@ package types
 //@   modifies elems(lastOccurrence), elems(lastOccurrenceIndex)
 //@   // the key of an account that is not the main account is "<type>-<id>": never "MAIN"
 //@   ensures [main] err == nil ==> lookup(lastOccurrence, "MAIN") == (account.Type == "MAIN" ? accountType : old(lookup(lastOccurrence, "MAIN")))
-//@   prop C20 C03 C13
+//@   prop C20 C03 C13 C04
 //@ func validateUniquenessOfNames(subDistributorName, nameOccurred) (err)
 //@   requires arr(nameOccurred) != 0
 //@   modifies elems(nameOccurred)
@@ -70,7 +70,7 @@ package types
 //@   requires arr(lastOccurrence) != 0 && arr(lastOccurrenceIndex) != 0
 //@   modifies elems(lastOccurrence), elems(lastOccurrenceIndex)
 //@   ensures [main] err == nil ==> lookup(lastOccurrence, "MAIN") == (sourcesHaveMain(accounts, len(accounts)) ? accountType : old(lookup(lastOccurrence, "MAIN")))
-//@   prop C20 C03 C13
+//@   prop C20 C03 C13 C04
 //@ loop validateSources#1
 //@   invariant 0 <= \i && \i <= len(accounts)
 //@   invariant lookup(lastOccurrence, "MAIN") == (sourcesHaveMain(accounts, \i) ? accountType : old(lookup(lastOccurrence, "MAIN")))
@@ -79,7 +79,7 @@ package types
 //@   requires arr(lastOccurrence) != 0 && arr(lastOccurrenceIndex) != 0 && arr(shareNameOccurred) != 0
 //@   modifies elems(lastOccurrence), elems(lastOccurrenceIndex), elems(shareNameOccurred)
 //@   ensures [main] err == nil ==> lookup(lastOccurrence, "MAIN") == (sharesHaveMain(shares, len(shares)) ? accountType : old(lookup(lastOccurrence, "MAIN")))
-//@   prop C20 C03 C13
+//@   prop C20 C03 C13 C04
 //@ loop validateDestinationsShares#1
 //@   invariant 0 <= \i && \i <= len(shares)
 //@   invariant lookup(lastOccurrence, "MAIN") == (sharesHaveMain(shares, \i) ? accountType : old(lookup(lastOccurrence, "MAIN")))
@@ -107,7 +107,7 @@ package types
 //@ func validateLastOccurrence(lastOccurrence) (err)
 //@   uses forall row: [int]str, n: int :: {strIn(row, 0, n, "MAIN")} inAllSource(row, 0, n, keysOf(lastOccurrence), valsOf(lastOccurrence), "MAIN")
 //@   ensures [main-is-source] err == nil ==> lookup(lastOccurrence, "MAIN") == "SOURCE"
-//@   prop C20 C03 C13
+//@   prop C20 C03 C13 C04
 //@ loop validateLastOccurrence#1
 //@   invariant off(accountIds) == 0 && len(accountIds) >= 0
 //@   invariant forall k: str :: {\yielded[k]} \yielded[k] ==> strIn(elemRow(accountIds), 0, len(accountIds), k)
@@ -172,7 +172,7 @@ package types
 //@   // acceptance witnesses at the two boundaries: a total of zero and a total one unit below 1 are accepted
 //@   reach [accepts-zero-total] err == nil && shareSum == 0
 //@   reach [accepts-just-below-one] err == nil && shareSum == P - 1
-//@   prop C20 C10
+//@   prop C20 C10 C03 C04
 //@ loop Destinations.CheckIfSharesSumIsBetween0And1#1
 //@   invariant 0 <= \i && \i <= len(destinations.Shares)
 //@   invariant !shareSum.IsNil() && 0 <= shareSum && shareSum <= (\i + 1) * P
@@ -182,7 +182,7 @@ package types
 //@   ensures err == nil ==> destinationsValid(destinations)
 //@   ensures err == nil ==> accountValidated(destinations.PrimaryShare)
 //@     && (forall k: int :: {destinations.Shares[k]} 0 <= k && k < len(destinations.Shares) ==> accountValidated(destinations.Shares[k].Destination))
-//@   prop C20 C10 C13
+//@   prop C20 C10 C13 C03 C04
 //@ loop Destinations.Validate#1
 //@   invariant 0 <= \i && \i <= len(destinations.Shares)
 //@   invariant sharesChecked(destinations.Shares, \i) && sharesNonNegOf(destinations, \i)
@@ -200,7 +200,7 @@ package types
 //@   && (a.Type == "INTERNAL_ACCOUNT" ==> a.Id != "")
 //@ func (account Account) Validate() (err)
 //@   ensures (err == nil) == accountValidated(account)
-//@   prop C13 C20 C03 C10 C14
+//@   prop C13 C20 C03 C10 C14 C04
 //@ pred destinationAccountsValidated(dst) = accountValidated(dst.PrimaryShare)
 //@   && (forall k: int :: {dst.Shares[k]} 0 <= k && k < len(dst.Shares) ==> accountValidated(dst.Shares[k].Destination))
 //@ pred sourcesValidated(srcs) = len(srcs) >= 1 && (forall k: int :: {srcs[k]} 0 <= k && k < len(srcs) ==> srcs[k] != nil && accountValidated(srcs[k]))
@@ -208,7 +208,7 @@ package types
 //@ func (subdistributor SubDistributor) Validate() (err)
 //@   requires len(subdistributor.Destinations.Shares) <= 1000000
 //@   ensures err == nil ==> subDistributorValidated(subdistributor)
-//@   prop C20 C13 C10 C03
+//@   prop C20 C13 C10 C03 C04
 //@ loop SubDistributor.Validate#1
 //@   invariant 0 <= \i && \i <= len(subdistributor.Sources)
 //@   invariant forall k: int :: {subdistributor.Sources[k]} 0 <= k && k < \i ==> subdistributor.Sources[k] != nil && accountValidated(subdistributor.Sources[k])
